@@ -40,8 +40,24 @@ class Unbounded(Exception):
 
 # ----------------------------------------------------------------------------- Int lowering
 
+_chain_memo = {}
+
+
+def ite_chain_len(t):
+    """length of the else-chain of an INT ite"""
+    n = 0
+    u = t
+    while u.op == "ite":
+        n += 1
+        u = u.args[2]
+    return n
+
+
 class IntLower:
-    def __init__(self):
+    def __init__(self, abstract=False):
+        # abstract=True generalises the formula (sound for proving validity only): symbolic-by-symbolic
+        # mul/div/mod become uninterpreted functions, long ite chains (register-file reads) become fresh variables
+        self.abstract = abstract
         self.memo = {}
         self.side = []          # range constraints for vars and UF applications
         self.vars = {}          # name -> z3 const
@@ -56,6 +72,15 @@ class IntLower:
             if u.id in memo:
                 stack.pop()
                 continue
+            if getattr(self, "abstract", False) and u.op == "ite" and ite_chain_len(u) >= 8:
+                v = z3.Int("abs!%d" % u.id)
+                if u.lo is not None:
+                    self.side.append(v >= u.lo)
+                if u.hi is not None:
+                    self.side.append(v <= u.hi)
+                memo[u.id] = v
+                stack.pop()
+                continue
             pend = [a for a in u.args if isinstance(a, Term) and a.id not in memo]
             if pend:
                 stack.extend(pend)
@@ -64,8 +89,35 @@ class IntLower:
             memo[u.id] = self._one(u, [memo[a.id] if isinstance(a, Term) else a for a in u.args])
         return memo[t.id]
 
+    def _uf(self, name, x, y, u):
+        f = self.funcs.get(name)
+        if f is None:
+            f = z3.Function(name, z3.IntSort(), z3.IntSort(), z3.IntSort())
+            self.funcs[name] = f
+        e = f(x, y)
+        if name == "uf!mul":
+            self.side.append(e == f(y, x))
+        if u is not None:
+            if u.lo is not None:
+                self.side.append(e >= u.lo)
+            if u.hi is not None:
+                self.side.append(e <= u.hi)
+        return e
+
     def _one(self, u, a):
         op = u.op
+        if self.abstract:
+            if op == "mul" and u.args[1].op != "const":
+                return self._uf("uf!mul", a[0], a[1], u)
+            if op in ("fdiv", "mod") and u.args[1].op != "const":
+                return self._uf("uf!" + op, a[0], a[1], u)
+            if op == "tdiv":
+                x, y = a
+                ax = z3.If(x >= 0, x, -x)
+                ay = z3.If(y >= 0, y, -y)
+                q = self._uf("uf!fdiv", ax, ay, None)
+                self.side.append(q >= 0)
+                return z3.If((x >= 0) == (y > 0), q, -q)
         if op == "const":
             return z3.IntVal(a[0])
         if op == "bconst":
@@ -323,8 +375,35 @@ def _run_cvc5(smt2: str, timeout_ms: int):
         os.unlink(path)
 
 
+def _flatten_and(t, out):
+    if t.op == "and":
+        _flatten_and(t.args[0], out)
+        _flatten_and(t.args[1], out)
+    else:
+        out.append(t)
+
+
 def solve(assumptions, goal, timeout_ms=10000, use_cvc5=False) -> Result:
-    """Is (and assumptions) => goal valid?"""
+    """Is (and assumptions) => goal valid?  A conjunction that does not close in one query is split."""
+    r = solve1(assumptions, goal, timeout_ms, use_cvc5)
+    goal = ir.lift(goal)
+    if r.status != "unknown" or goal.op != "and":
+        return r
+    parts = []
+    _flatten_and(goal, parts)
+    total = r.seconds
+    backends = set()
+    for c in parts:
+        rc = solve1(assumptions, c, timeout_ms, use_cvc5)
+        total += rc.seconds
+        if rc.status != "proved":
+            rc.seconds = total
+            return rc
+        backends.add(rc.backend)
+    return Result("proved", backend="+".join(sorted(backends)) + "(split)", seconds=total)
+
+
+def solve1(assumptions, goal, timeout_ms=10000, use_cvc5=False) -> Result:
     t0 = time.time()
     assumptions = [ir.lift(a) for a in assumptions]
     goal = ir.lift(goal)
@@ -344,6 +423,19 @@ def solve(assumptions, goal, timeout_ms=10000, use_cvc5=False) -> Result:
             backend = "z3-int"
     except Unbounded as e:
         return Result("unknown", backend="none", seconds=time.time() - t0, reason=str(e))
+    if backend == "z3-int" and (ir.has_nonlinear(roots) or any(t.op == "ite" and ite_chain_len(t) >= 8 for t in ir.subterms(roots))):
+        la = IntLower(abstract=True)
+        sa = z3.Solver()
+        sa.set("timeout", int(min(timeout_ms, 5000)))
+        za = [la.lower(a) for a in assumptions]
+        zga = la.lower(goal)
+        for c in la.side:
+            sa.add(c)
+        for c in za:
+            sa.add(c)
+        sa.add(z3.Not(zga))
+        if sa.check() == z3.unsat:
+            return Result("proved", backend="z3-int-abstracted", seconds=time.time() - t0)
     s = z3.Solver()
     s.set("timeout", int(timeout_ms))
     zs = [lw.lower(a) for a in assumptions]
